@@ -25,6 +25,24 @@ def main():
     if res.violated:
         pv.log("INFRA: MatsubaraStore.tla design level violates its definition level: %s" % res.violated)
         sys.exit(2)
+    # (1b) Apalache: the same two layout properties for EVERY window size N >= 0 and EVERY integer triple (unbounded integers, SMT)
+    import subprocess, os, shutil, tempfile
+    od = tempfile.mkdtemp(prefix="apa-", dir=os.path.join(pv.VERIF, "build"))
+    try:
+        p = subprocess.run(["timeout", "600", "apalache-mc", "check", "--init=Init", "--next=Next", "--inv=Inv", "--length=0", "--out-dir=" + od, os.path.join(pv.SPEC, "StoreApa.tla")],
+                           stdout=subprocess.PIPE, stderr=subprocess.STDOUT, text=True, cwd=od)
+        out = p.stdout
+    finally:
+        shutil.rmtree(od, ignore_errors=True)
+    if "The outcome is: NoError" in out:
+        c.extra["apalache_unbounded_N"] = "Transparent and WindowExact hold for all N >= 0 and all integer triples"
+        c.tlc_cmds.append("apalache-mc check --inv=Inv --length=0 spec/StoreApa.tla")
+    elif "The outcome is: Error" in out:
+        pv.log("INFRA: StoreApa.tla (unbounded layout) has a counter-example; the specification is wrong\n" + out[-1500:])
+        sys.exit(2)
+    else:
+        c.extra["apalache_unbounded_N"] = "not completed (bounded TLC result stands alone): " + out[-200:]
+
     # (2) probe
     maxn = 4 if not thorough else 6
     scen = [{"kind": "store", "id": "N%d" % n, "N": n} for n in range(0, maxn + 1)]
